@@ -561,6 +561,40 @@ func TestC16Decode(t *testing.T) {
 				}
 			}
 		}
+		// several documents in one file (a header document, or the groups split over documents): whatever
+		// the decoder makes of it, every group it returns is one that was written - field values are
+		// never carried over from another group or document
+		if ng >= 2 && rapid.IntRange(0, 3).Draw(rt, "multiDoc") == 0 {
+			cut := rapid.IntRange(1, ng-1).Draw(rt, "cut")
+			first, second := groups[:cut], groups[cut:]
+			if rapid.Bool().Draw(rt, "secondFirst") {
+				first, second = second, first
+			}
+			var doc string
+			if rapid.Bool().Draw(rt, "yamlDocs") {
+				doc = renderYAML(first, 0, 0) + "---\n" + renderYAML(second, 0, 0)
+				if rapid.Bool().Draw(rt, "header") {
+					doc = "# managed by deploy tooling\n---\n" + doc
+				}
+			} else {
+				doc = renderJSON(first, false, 0) + "\n" + renderJSON(second, true, 0)
+			}
+			col.Eval(1)
+			if multi, err := controller.UnmarshalNodeGroupOptions(strings.NewReader(doc)); err == nil {
+				for _, got := range multi {
+					written := false
+					for _, one := range fromJ {
+						if reflect.DeepEqual(got, one) {
+							written = true
+						}
+					}
+					if !written {
+						fail(rt, dumpPath(), "C16:group-mixes-documents", "decoded group %+v equals none of the groups written\n--- file\n%s", got, doc)
+					}
+				}
+				col.Nontrivial(fmt.Sprintf("multidoc|%d|%d|%x", ng, cut, hashStr(doc)))
+			}
+		}
 		if (ng >= 2 && allKeys) || len(y) > 4096 {
 			col.Nontrivial(fmt.Sprintf("decode|%d|%v|%d|%d|%x", ng, len(y) > 4096, style, pad, hashStr(y)))
 			col.Sample(map[string]any{"groups": ng, "yaml_bytes": len(y), "json_bytes": len(js), "yaml_head": strings.Split(y, "\n")[:minI(12, strings.Count(y, "\n"))]})
